@@ -76,6 +76,7 @@ type Spec struct {
 	// all other methods keep the converter-level setting and the full oracle.
 	MethodWrapOff map[string]bool
 	Shared        map[int]*node // named structs used identically on both sides
+	NConts        map[int]*node // named container on ONE side, its unnamed form on the other
 	HasOptional   bool
 	PtrRoot   map[int]bool
 	nextID    int
@@ -115,6 +116,7 @@ func NewSpec(seed uint64, prop string) *Spec {
 	s.UFieldsMax = 2 + r.IntN(3)
 	s.maxDepth = 3 + r.IntN(3)
 	s.Shared = map[int]*node{}
+	s.NConts = map[int]*node{}
 	s.SkipCopyMode = "none"
 	if prop == "C04" {
 		switch r.IntN(6) {
@@ -139,7 +141,7 @@ func NewSpec(seed uint64, prop string) *Spec {
 		// a chain of unnamed containers (all converted inline, inside one generated method)
 		// ending in an unnamed struct with several fallible fields: long location paths
 		root := s.Roots[r.IntN(len(s.Roots))]
-		root.Fields = append(root.Fields, s.mkField(len(root.Fields), s.genChain(1+r.IntN(6)), root))
+		root.Fields = append(root.Fields, s.mkField(len(root.Fields), s.genChain(1+r.IntN(12)), root))
 	}
 	if prop == "C04" && r.IntN(2) == 0 {
 		// shapes the builders treat specially: T → *T around an identical unnamed struct of
@@ -246,6 +248,23 @@ func (s *Spec) genStruct(depth int) *node {
 		n.Fields = append(n.Fields, s.mkField(i, s.gen(depth+1, n), n))
 	}
 	s.structsAt = s.structsAt[:len(s.structsAt)-1]
+	if s.Prop == "C04" && s.rng.IntN(4) == 0 {
+		// a container that is a named type on one side and its unnamed form on the other
+		// (assignable, but not identical)
+		var el *node
+		if s.rng.IntN(2) == 0 {
+			el = &node{Kind: "slice", Elem: &node{Kind: "basic", Basic: []string{"string", "int"}[s.rng.IntN(2)]}}
+		} else {
+			el = &node{Kind: "map", Key: &node{Kind: "basic", Basic: "string"}, Elem: &node{Kind: "basic", Basic: "string"}}
+		}
+		nc := &node{Kind: "ncont", ID: s.id(), Basic: []string{"S", "T"}[s.rng.IntN(2)], Elem: el}
+		s.NConts[nc.ID] = nc
+		var fn *node = nc
+		if s.rng.IntN(3) == 0 {
+			fn = &node{Kind: "slice", Elem: nc}
+		}
+		n.Fields = append(n.Fields, &field{Name: fmt.Sprintf("F%d", len(n.Fields)), TName: fmt.Sprintf("F%d", len(n.Fields)), N: fn})
+	}
 	if s.Prop == "C04" && s.rng.IntN(4) == 0 {
 		// dotted path mapping through a nil-able pointer: T.P = &<copy of> S.F.B0
 		inner := &node{Kind: "struct", ID: s.id()}
@@ -469,6 +488,12 @@ func (s *Spec) expr(n *node, side string) string {
 		return "*" + s.expr(n.Elem, side)
 	case "shared":
 		return fmt.Sprintf("Sh%d", n.ID)
+	case "ncont":
+		// Basic holds the side ("S" or "T") on which the container is a named type
+		if side == n.Basic {
+			return fmt.Sprintf("NC%d", n.ID)
+		}
+		return s.expr(n.Elem, side)
 	case "array":
 		return fmt.Sprintf("[%d]%s", n.ID, s.expr(n.Elem, side))
 	case "sptr":
@@ -543,6 +568,9 @@ func (s *Spec) TypesSource() string {
 	}
 	for _, id := range sortedIDs(s.NBasics) {
 		fmt.Fprintf(&b, "type SN%d %s\ntype TN%d %s\n", id, s.NBasics[id], id, s.NBasics[id])
+	}
+	for _, id := range sortedIDs(s.NConts) {
+		fmt.Fprintf(&b, "type NC%d %s\n", id, s.expr(s.NConts[id].Elem, "S"))
 	}
 	for _, id := range sortedIDs(s.Shared) {
 		n := s.Shared[id]
@@ -812,7 +840,7 @@ func (s *Spec) exprsIn(n *node, out map[string]bool, seen map[int]bool) {
 		for _, f := range n.Fields {
 			s.exprsIn(f.N, out, seen)
 		}
-	case "ptr", "slice", "tptr", "sptr", "array":
+	case "ptr", "slice", "tptr", "sptr", "array", "ncont":
 		s.exprsIn(n.Elem, out, seen)
 	case "map":
 		s.exprsIn(n.Key, out, seen)
@@ -903,7 +931,7 @@ func (s *Spec) EnumTargetSource() string {
 // clause matrix.
 func ManualSpec(kind, position string, ignoreMissing bool, format, wrap string) *Spec {
 	s := &Spec{Prop: "C07", Structs: map[int]*node{}, NBasics: map[int]string{}, Leaves: map[int]*leafInfo{}, Enums: map[int]int{},
-		PtrRoot: map[int]bool{}, UpdRoot: map[int]bool{}, MethodSkip: map[string]bool{}, MethodWrapOff: map[string]bool{}, Shared: map[int]*node{}, Format: format, Wrap: wrap, IgnoreMissing: ignoreMissing, SkipCopyMode: "none",
+		PtrRoot: map[int]bool{}, UpdRoot: map[int]bool{}, MethodSkip: map[string]bool{}, MethodWrapOff: map[string]bool{}, Shared: map[int]*node{}, NConts: map[int]*node{}, Format: format, Wrap: wrap, IgnoreMissing: ignoreMissing, SkipCopyMode: "none",
 		rng: rand.New(rand.NewPCG(1, 2))}
 	root := &node{Kind: "struct", ID: s.id()}
 	s.Structs[root.ID] = root
